@@ -1046,7 +1046,10 @@ def check_C16(ctx):
         word_of_bit = {51 - i: oracle.card_word(r, s_) for i, (r, s_) in enumerate(order)}
 
         def result(val):
-            r = ctx.fold(dag, {"s": val})
+            try:
+                r = ctx.fold(dag, {"s": val})
+            except (IndexError, ZeroDivisionError):
+                return ("Panic", "table index / arithmetic out of range")      # (the no-panic rule names the site)
             vn = pdb.variant_name(r[1][1], r[1][2])
             if vn == "Ok":
                 return ("Ok", [cval(x) for x in arr_of(r[2][0])])
